@@ -206,34 +206,54 @@ def describe_steps(steps):
     return out
 
 
-async def _pump(rx, senders, names, rows, exact):
-    """send one sample per stream per row (lock-step, same timestamp), collect what the engine emits"""
+async def _pump(rx, senders, names, rows, exact, pre_rows=None, needs=None):
+    """send one sample per stream per row (lock-step, same timestamp), collect what the engine(s) emit.
+
+    rx: one receiver or a list of receivers (then a list of outputs is returned).
+    pre_rows: samples BEFORE row 0 (timestamps -len(pre_rows) .. -1) that only SOME streams deliver:
+    the streams do not start aligned, the evaluator has to discard them while synchronising."""
     Sample = imp()["Sample"]
-    got = {}
-    for k, row in enumerate(rows):
+    rxs = rx if isinstance(rx, list) else [rx]
+    gots = [{} for _ in rxs]
+    pre_rows = pre_rows or []
+    sched = [(k - len(pre_rows), row, sorted(row)) for k, row in enumerate(pre_rows)] + \
+            [(k, row, names) for k, row in enumerate(rows)]
+    for k, row, who in sched:
         ts = E0 + timedelta(seconds=k)
-        for name in names:
+        for name in who:
+            if name not in senders:
+                continue
             v = as_number(dec(row[name]), exact)
             await senders[name].send(Sample(ts, None if v is None else mk(v)))
         for _ in range(12):
             await asyncio.sleep(0)
-        while rx._q:  # pylint: disable=protected-access
-            m = rx.consume()
-            idx = int((m.timestamp - E0).total_seconds())
-            got.setdefault(idx, []).append(None if m.value is None else m.value.base_value)
-    out = []
-    for k in range(len(rows)):
-        g = got.get(k, [])
-        if len(g) == 0:
-            out.append("dropped")
-        elif len(g) > 1:
-            out.append(["dup", len(g)])
-        else:
-            out.append(out_enc(g[0], exact))
-    extra = sorted(k for k in got if k >= len(rows) or k < 0)
-    if extra:
-        out.append(["extra", extra])
-    return out
+        for r, got in zip(rxs, gots):
+            while r._q:  # pylint: disable=protected-access
+                m = r.consume()
+                idx = int((m.timestamp - E0).total_seconds())
+                got.setdefault(idx, []).append(None if m.value is None else m.value.base_value)
+    outs = []
+    for got in gots:
+        out = []
+        for k in range(len(rows)):
+            g = got.get(k, [])
+            if len(g) == 0:
+                out.append("dropped")
+            elif len(g) > 1:
+                out.append(["dup", len(g)])
+            else:
+                out.append(out_enc(g[0], exact))
+        # before row 0 an engine may (and then must) emit only for timestamps all ITS inputs have
+        need = (needs[len(outs)] if needs else None) or set(names)
+        due = {k - len(pre_rows) for k, row in enumerate(pre_rows) if need <= set(row)}
+        extra = sorted(k for k in got if k >= len(rows) or (k < 0 and k not in due))
+        lost = sorted(k for k in due if k not in got)
+        if extra:
+            out.append(["extra", extra])
+        if lost:
+            out.append(["extra", ["lost-before-row-0"] + lost])
+        outs.append(out)
+    return outs if isinstance(rx, list) else outs[0]
 
 
 async def _cleanup(engines):
@@ -268,7 +288,7 @@ async def _run_str(case, exact):
     for nme in names:
         chan = reg.get_or_create(I["Sample"][I["Quantity"]], I["CMR"]("ns", int(nme), I["MID"], None).get_channel_name())
         senders[nme] = chan.new_sender()
-    out = await _pump(rx, senders, names, case["rows"], exact)
+    out = await _pump(rx, senders, names, case["rows"], exact, case.get("pre_rows"), [{k.lstrip("#") for k, _ in fetch}])
     await _cleanup([eng])
     return {"steps": steps, "fetchers": fetch, "out": out}
 
@@ -278,36 +298,78 @@ def _const(op, v, exact):
     return mk(x) if op in ("+", "-", "max", "min") else x
 
 
-def build_hb(t, engines, exact):
-    """JSON builder tree -> the real builder object, through the public operator/method API."""
+def build_hb(t, engines, exact, memo=None, perturb=False, pre=None, built=None):
+    """JSON builder tree -> the real builder object, through the public operator/method API.
+
+    memo (dict): equal sub-trees are built ONCE and the same Python builder object is used at every
+    occurrence (`b = e0 + e1; b * b`).  perturb: after a builder has been made, further formulas are
+    derived from it and thrown away (`b * 2.0`, `b.consumption()`, `b + b`); a builder is a value and
+    must not be changed by that."""
     fe = imp()["fe"]
+    key = json.dumps(t)
+    if memo is not None and key in memo:
+        return memo[key]
     k = t[0]
+    rec = lambda x: build_hb(x, engines, exact, memo, perturb, pre, built)
     if k == "s":
-        return fe.HigherOrderFormulaBuilder(engines[t[1]], mk)
-    if k == "u":
-        base = engines[t[1][1]] if t[1][0] == "s" else build_hb(t[1], engines, exact)
-        return base.consumption() if t[2] == "consumption" else base.production()
-    base = engines[t[1][1]] if t[1][0] == "s" else build_hb(t[1], engines, exact)   # engine operator API
-    op = t[2]
-    if k == "e":
-        other = engines[t[3]]
-    elif k == "c":
-        other = _const(op, t[3], exact)
+        res = fe.HigherOrderFormulaBuilder(engines[t[1]], mk)
+    elif k == "u":
+        base = engines[t[1][1]] if t[1][0] == "s" else rec(t[1])
+        res = base.consumption() if t[2] == "consumption" else base.production()
     else:
-        other = build_hb(t[3], engines, exact)
-    if op == "+":
-        return base + other
-    if op == "-":
-        return base - other
-    if op == "*":
-        return base * other
-    if op == "/":
-        return base / other
-    if op == "max":
-        return base.max(other)
-    if op == "min":
-        return base.min(other)
-    raise ValueError(op)
+        base = engines[t[1][1]] if t[1][0] == "s" else rec(t[1])   # engine operator API
+        op = t[2]
+        if k == "e":
+            other = engines[t[3]]
+        elif k == "c":
+            other = _const(op, t[3], exact)
+        else:
+            other = rec(t[3])
+        if op == "+":
+            res = base + other
+        elif op == "-":
+            res = base - other
+        elif op == "*":
+            res = base * other
+        elif op == "/":
+            res = base / other
+        elif op == "max":
+            res = base.max(other)
+        elif op == "min":
+            res = base.min(other)
+        else:
+            raise ValueError(op)
+    if perturb:
+        _ = res * 2.0
+        _ = res.consumption()
+        _ = res + res
+    for name, nz in (pre or {}).get(key, []):
+        # an engine is built from this builder NOW; the builder is used further afterwards
+        built.append((t, bool(nz), res.build(name, nones_are_zeros=bool(nz))))
+    if memo is not None:
+        memo[key] = res
+    return res
+
+
+def hb_subtrees(t):
+    out = [t]
+    if t[0] != "s":
+        out += hb_subtrees(t[1])
+        if t[0] == "b":
+            out += hb_subtrees(t[3])
+    return out
+
+
+def gen_pre_rows(rng, names):
+    """Staggered start: every stream begins at its own timestamp (-3 .. 0, at least one at 0) and is
+    gap-free from then on, as resampled streams are.  Row 0 is the first timestamp all streams have;
+    the earlier samples (values / missing at random) must be discarded by the evaluator."""
+    if len(names) < 2:
+        return []
+    start = {str(n): rng.randint(-3, 0) for n in names}
+    start[str(rng.choice(names))] = 0
+    first = min(start.values())
+    return [{n: gen_value(rng, 0.5) for n in sorted(start) if start[n] <= k} for k in range(first, 0)]
 
 
 def hb_names(t):
@@ -323,6 +385,10 @@ def hb_names(t):
 
 
 async def _run_ho(case, exact):
+    """Builds the tree through the operator API.  Besides the main engine (name "f", case["nz"], built
+    LAST) further engines are built: from sub-builders right after they were made (case["pre"]: the
+    builder is then extended / combined / built again) and from the final builder (case["finals"]:
+    same or other name, same or other flag).  Every engine must compute ITS expression."""
     I = imp()
     fe = I["fe"]
     names = sorted({k for r in case["rows"] for k in r} | {str(n) for n in hb_names(case["tree"])})
@@ -330,18 +396,31 @@ async def _run_ho(case, exact):
     engines = {int(n): fe.FormulaEngine.from_receiver(f"e{n}", chans[n].new_receiver(), mk,
                                                       nones_are_zeros=bool(case.get("src_nz", {}).get(n, False)))
                for n in names}
-    builder = build_hb(case["tree"], engines, exact)
+    pre = {}
+    for node, name, nz in case.get("pre", []):
+        pre.setdefault(json.dumps(node), []).append([name, nz])
+    built = []
+    memo = {} if (case.get("share") or pre) else None
+    builder = build_hb(case["tree"], engines, exact, memo, bool(case.get("perturb")), pre, built)
     tokens = [[t.name, (v._name if isinstance(v, fe.FormulaEngine) else (v if isinstance(v, str) else out_enc(v.base_value if hasattr(v, "base_value") else v)))]  # pylint: disable=protected-access
               for t, v in builder._steps]  # pylint: disable=protected-access
-    eng = builder.build("f", nones_are_zeros=case["nz"])
-    steps = describe_steps(eng._builder._steps)  # pylint: disable=protected-access
-    fetch = [[k, bool(f._nones_are_zeros)] for k, f in eng._builder._metric_fetchers.items()]  # pylint: disable=protected-access
-    rx = eng.new_receiver()
+    for name, nz in case.get("finals", []):
+        built.append((case["tree"], bool(nz), builder.build(name, nones_are_zeros=bool(nz))))
+    built.append((case["tree"], bool(case["nz"]), builder.build("f", nones_are_zeros=case["nz"])))
+    descr = []
+    for tree, nz, eng in built:
+        descr.append({"tree": tree, "nz": nz, "steps": describe_steps(eng._builder._steps),  # pylint: disable=protected-access
+                      "fetchers": [[k, bool(f._nones_are_zeros)] for k, f in eng._builder._metric_fetchers.items()]})  # pylint: disable=protected-access
+    rxs = [eng.new_receiver() for _, _, eng in built]
     senders = {n: chans[n].new_sender() for n in names}
     await asyncio.sleep(0)
-    out = await _pump(rx, senders, names, case["rows"], exact)
-    await _cleanup([eng] + list(engines.values()))
-    return {"steps": steps, "fetchers": fetch, "out": out, "tokens": tokens}
+    needs = [{k.lstrip("e") for k, _ in d["fetchers"]} for d in descr]
+    outs = await _pump(rxs, senders, names, case["rows"], exact, case.get("pre_rows"), needs)
+    for d, o in zip(descr, outs):
+        d["out"] = o
+    await _cleanup([e for _, _, e in built] + list(engines.values()))
+    main = descr[-1]
+    return {"steps": main["steps"], "fetchers": main["fetchers"], "out": main["out"], "tokens": tokens, "builds": descr}
 
 
 async def _run_raw(case, exact):
@@ -372,9 +451,68 @@ async def _run_raw(case, exact):
     return {"steps": steps, "fetchers": fetch, "out": out}
 
 
+async def _run_signed(case, exact):
+    """the formula generators' call sequence on the real ResampledFormulaBuilder:
+    push_component_metric(first), then push_oper("+"/"-") + push_component_metric, then build()"""
+    I = imp()
+    reg = I["ChannelRegistry"](name="verif")
+    req = I["Broadcast"](name="req")
+    b = I["RFB"]("ns", "f", reg, req.new_sender(), I["MID"], mk)
+    n0, z0 = case["first"]
+    b.push_component_metric(n0, nones_are_zeros=bool(z0))
+    for plus, n, z in case["terms"]:
+        b.push_oper("+" if plus else "-")
+        b.push_component_metric(n, nones_are_zeros=bool(z))
+    eng = b.build()
+    steps = describe_steps(eng._builder._steps)  # pylint: disable=protected-access
+    fetch = [[k, bool(f._nones_are_zeros)] for k, f in eng._builder._metric_fetchers.items()]  # pylint: disable=protected-access
+    rx = eng.new_receiver()
+    names = sorted({k for r in case["rows"] for k in r})
+    senders = {}
+    for nme in names:
+        chan = reg.get_or_create(I["Sample"][I["Quantity"]], I["CMR"]("ns", int(nme), I["MID"], None).get_channel_name())
+        senders[nme] = chan.new_sender()
+    out = await _pump(rx, senders, names, case["rows"], exact)
+    await _cleanup([eng])
+    return {"steps": steps, "fetchers": fetch, "out": out}
+
+
+def signed_ref(case, row):
+    """sum of sign * value; a missing value is 0 on a zero-configured id (flag of its FIRST occurrence), else None"""
+    flags = {}
+    for n, z in [case["first"]] + [[t[1], t[2]] for t in case["terms"]]:
+        flags.setdefault(n, bool(z))
+    total = F(0)
+    for plus, n in [[True, case["first"][0]]] + [[t[0], t[1]] for t in case["terms"]]:
+        v = fetch_ref(row[str(n)], flags[n])
+        if v is None:
+            return None
+        total = total + v if plus else total - v
+    return total
+
+
+def term_signed(case, obs):
+    rows = c_rows(case, obs)
+    rest = "[" + "; ".join(f"({cbool(p)}, {c_N(n)}, {cbool(z)})" for p, n, z in case["terms"]) + "]"
+    head = f"{c_N(case['first'][0])}, {cbool(case['first'][1])}, {rest}"
+    if rows is None:
+        return f"({head}, ([SOpen; SOpen; SOpen], []), [])"
+    return f"({head}, {c_prog(obs)}, {rows})"
+
+
+def gen_signed_case(rng):
+    ids = rng.sample([1, 2, 3, 4, 5, 7, 12, 30, 100000], rng.randint(1, 6))
+    n = rng.choice([0, 0, 1, 2, 3, 5, 8])
+    first = [rng.choice(ids), rng.random() < 0.5]
+    terms = [[rng.random() < 0.6, rng.choice(ids), rng.random() < 0.5] for _ in range(n)]
+    names = sorted({first[0]} | {t[1] for t in terms})
+    return {"kind": "signed", "first": first, "terms": terms,
+            "rows": gen_rows(rng, names, rng.randint(2, 4), rng.choice([0.0, 0.2, 0.4]))}
+
+
 def run_case(case, exact=True):
     import async_solipsism
-    fn = {"str": _run_str, "ho": _run_ho, "raw": _run_raw}[case["kind"]]
+    fn = {"str": _run_str, "ho": _run_ho, "raw": _run_raw, "signed": _run_signed}[case["kind"]]
     loop = async_solipsism.EventLoop()
     try:
         return loop.run_until_complete(fn(case, exact))
@@ -387,6 +525,8 @@ def run_both(case):
     if "error" not in obs:
         fl = run_case(case, exact=False)
         obs["float_out"] = fl.get("out")
+        for b, fb in zip(obs.get("builds", []), fl.get("builds", [])):
+            b["float_out"] = fb.get("out")
         obs["float_steps_same_shape"] = [s[:1] + ([s[1]] if s[0] in ("op", "fetch") else []) for s in fl.get("steps", [])] == \
                                         [s[:1] + ([s[1]] if s[0] in ("op", "fetch") else []) for s in obs["steps"]]
     return obs
@@ -595,6 +735,9 @@ def finite_or_none(r):
 
 def judge_rows(case, obs, ref_fn, out):
     """C05 + C13 on implementation-observable values.  ref_fn(row) -> Fraction | None."""
+    for tag, o in (("exact", obs.get("out") or []), ("float", obs.get("float_out") or [])):
+        for g in o[len(case["rows"]):]:
+            out.append({"what": f"sample-count: samples at unexpected timestamps {g} ({tag} run)", "finding": None})
     for k, row in enumerate(case["rows"]):
         want = finite_or_none(ref_fn(row))
         got = obs["out"][k] if k < len(obs["out"]) else "dropped"
@@ -777,6 +920,13 @@ Definition check_ho (c : hb * bool * list (N * bool) * (list step * list (N * bo
   let p := compile_hb nz t in
   prog_eqb p ep &&
   forallb (fun r => outcome_eqb (run_round Num p (fun n => via_engine (nz_flag src n) (env_of (fst r) n))) (snd r)) rows.
+Definition check_ho_multi (cs : list (hb * bool * list (N * bool) * (list step * list (N * bool))
+                                       * list (list (N * inp) * outcome))) : bool := forallb check_ho cs.
+(* the formula generators' call sequence (C12 <-> C05) *)
+Definition check_signed (c : N * bool * list sterm * (list step * list (N * bool))
+                             * list (list (N * inp) * outcome)) : bool :=
+  let '(n0, z0, rest, ep, rows) := c in
+  let p := compile_signed n0 z0 rest in prog_eqb p ep && rows_ok p rows.
 (* raw FormulaBuilder calls *)
 Inductive bcall := COper (o : oper) | CMetric (n : N) (nz : bool) | CConst (v : val) | CClip (lo hi : option val).
 Definition do_call (b : builder) (c : bcall) : builder :=
@@ -807,11 +957,16 @@ def term_str(case, obs):
 
 
 def term_ho(case, obs):
-    rows = c_rows(case, obs)
+    """one check_ho tuple per engine that was built (main engine last)"""
     src = "[" + "; ".join(f"({c_N(k)}, {cbool(z)})" for k, z in sorted(case.get("src_nz", {}).items(), key=lambda kv: int(kv[0]))) + "]"
-    if rows is None:
-        return f"({c_hb(case['tree'])}, {cbool(case['nz'])}, {src}, ([SOpen; SOpen; SOpen], []), [])"
-    return f"({c_hb(case['tree'])}, {cbool(case['nz'])}, {src}, {c_prog(obs)}, {rows})"
+    out = []
+    for b in obs.get("builds") or [{"tree": case["tree"], "nz": case["nz"], **obs}]:
+        rows = c_rows(case, b)
+        if rows is None:
+            out.append(f"({c_hb(b['tree'])}, {cbool(b['nz'])}, {src}, ([SOpen; SOpen; SOpen], []), [])")
+        else:
+            out.append(f"({c_hb(b['tree'])}, {cbool(b['nz'])}, {src}, {c_prog(b)}, {rows})")
+    return "[" + "; ".join(out) + "]"
 
 
 def c_call(c):
@@ -899,28 +1054,48 @@ def gen_str_case(rng):
 HOPS = ("+", "-", "*", "/", "max", "min")
 
 
-def gen_hb(rng, depth, ids):
+def gen_hb(rng, depth, ids, pool=None):
+    """pool (list): sub-trees generated so far; with it, operands are sometimes a copy of an earlier
+    sub-tree, so that the tree has repeated sub-expressions (built as ONE shared object, see build_hb)."""
     if depth == 0:
         return ["s", rng.choice(ids)]
     r = rng.random()
-    base = gen_hb(rng, depth - 1 if rng.random() < 0.7 else rng.randint(0, depth - 1), ids)
+    if pool and rng.random() < 0.3:
+        base = json.loads(json.dumps(rng.choice(pool)))
+    else:
+        base = gen_hb(rng, depth - 1 if rng.random() < 0.7 else rng.randint(0, depth - 1), ids, pool)
     if r < 0.14:
-        return ["u", base, rng.choice(["consumption", "production"])]
-    op = rng.choice(HOPS)
-    r = rng.random()
-    if r < 0.35:
-        return ["e", base, op, rng.choice(ids)]
-    if r < 0.5:
-        c = rng.choice(VALS + ([["inf", "-inf", "nan"][rng.randrange(3)]] if rng.random() < 0.15 else []))
-        return ["c", base, op, c]
-    return ["b", base, op, gen_hb(rng, rng.randint(0, depth - 1), ids)]
+        res = ["u", base, rng.choice(["consumption", "production"])]
+    else:
+        op = rng.choice(HOPS)
+        r = rng.random()
+        if r < 0.35:
+            res = ["e", base, op, rng.choice(ids)]
+        elif r < 0.5:
+            c = rng.choice(VALS + ([["inf", "-inf", "nan"][rng.randrange(3)]] if rng.random() < 0.15 else []))
+            res = ["c", base, op, c]
+        elif pool and rng.random() < 0.5:
+            res = ["b", base, op, json.loads(json.dumps(rng.choice(pool + [base])))]
+        else:
+            res = ["b", base, op, gen_hb(rng, rng.randint(0, depth - 1), ids, pool)]
+    if pool is not None and res[0] != "s":
+        pool.append(res)
+    return res
 
 
 def gen_ho_case(rng):
     ids = rng.sample([0, 1, 2, 3, 4, 5], rng.randint(1, 4))
-    tree = gen_hb(rng, rng.randint(1, 6), ids)
+    share = rng.random() < 0.3
+    tree = gen_hb(rng, rng.randint(1, 6 if not share else 4), ids, [] if share else None)
     names = sorted(hb_names(tree))
-    return {"kind": "ho", "tree": tree, "nz": rng.random() < 0.4,
+    nz = rng.random() < 0.4
+    extra = {}
+    if rng.random() < 0.35:
+        subs = [x for x in hb_subtrees(tree) if x[0] != "s"]
+        pick = lambda: [rng.choice(["f", "f", "g"]), nz if rng.random() < 0.6 else not nz]
+        extra["pre"] = [[json.loads(json.dumps(rng.choice(subs)))] + pick() for _ in range(rng.randint(0, 2))]
+        extra["finals"] = [pick() for _ in range(rng.randint(0 if extra["pre"] else 1, 2))]
+    return {"kind": "ho", "tree": tree, "nz": nz, "share": share, "perturb": rng.random() < 0.3, **extra,
             "rows": gen_rows(rng, names, rng.randint(2, 4), rng.choice([0.0, 0.15, 0.3]))}
 
 
@@ -1034,10 +1209,18 @@ def shrink_case(case):
         for t in shrink_hb(case["tree"]):
             if t[0] != "s":
                 yield fix_rows({**case, "tree": t}, sorted(hb_names(t)))
+    elif case["kind"] == "signed":
+        t = case["terms"]
+        for i in range(len(t)):
+            yield {**case, "terms": t[:i] + t[i + 1:]}
     elif case["kind"] == "raw":
         c = case["calls"]
         for i in range(len(c)):
             yield {**case, "calls": c[:i] + c[i + 1:]}
+    for fld in ("pre", "finals", "pre_rows"):
+        lst = case.get(fld) or []
+        for i in range(len(lst)):
+            yield {**case, fld: lst[:i] + lst[i + 1:]}
     yield from shrink_rows(case)
 
 
